@@ -5,7 +5,8 @@
      ranges; see the definition for what it excludes) the model of asn_check_constraints
      accepts a value if and only if every component at every nesting depth satisfies its
      constraints ([satisfies]), for values the C types can hold ([repr]);
-   - the full statement is false of the code: witnesses outside [safe] (known findings);
+   - the full statement is false of the code: witnesses outside [safe] (the open known findings: SIZE of an
+     OF definition, EXCEPT, values beyond 64 bits in a half-open range);
    - the checker is a structural function of type and value (no fuel): it terminates;
    - for every vsnprintf return value and every buffer size >= 1, _asn_i_ctfailcb leaves
      errlen <= size - 1 and a NUL at errbuf[errlen], inside the buffer. *)
@@ -30,11 +31,6 @@ Theorem C08_check_exact_refuted : exists t v, repr false t v = true /\ check_ok 
 Proof. exact check_exact_refuted. Qed.
 Print Assumptions C08_check_exact_refuted.
 
-Theorem C08_refuted_sequence_early_return : exists t v,
-  repr false t v = true /\ check false t v = ROk /\ satisfies t v = false.
-Proof. exact refuted_sequence_early_return. Qed.
-Print Assumptions C08_refuted_sequence_early_return.
-
 Theorem C08_refuted_of_size_unchecked : exists t v,
   repr false t v = true /\ check false t v = ROk /\ satisfies t v = false.
 Proof. exact refuted_of_size_unchecked. Qed.
@@ -44,16 +40,6 @@ Theorem C08_refuted_except_ignored : exists t v,
   repr false t v = true /\ check false t v = ROk /\ satisfies t v = false.
 Proof. exact refuted_except_ignored. Qed.
 Print Assumptions C08_refuted_except_ignored.
-
-Theorem C08_refuted_min_max_union : exists t v,
-  repr false t v = true /\ check false t v = ROk /\ satisfies t v = false.
-Proof. exact refuted_min_max_union. Qed.
-Print Assumptions C08_refuted_min_max_union.
-
-Theorem C08_refuted_ulong_shortcut : exists t v,
-  repr false t v = true /\ check false t v = ROk /\ satisfies t v = false.
-Proof. exact refuted_ulong_shortcut. Qed.
-Print Assumptions C08_refuted_ulong_shortcut.
 
 Theorem C08_refuted_wide_open_range : exists t v,
   repr false t v = true /\ check false t v = RFail WTooLarge /\ satisfies t v = true.
